@@ -13,7 +13,8 @@ from harness.framework import cZ, cZlist, pmap
 
 LEVEL = "proof"
 TRANSLATED_KERNELS = ["calculate_projected_mem", "MemoryModeller.allocate", "MemoryModeller.free", "peak_projected_mem",
-                      "is_fuse_candidate", "can_fuse_primitive_ops", "can_fuse_multiple_primitive_ops", "fuse_multiple.fields"]   # harness/translate.py: re-translated from /repo on every run and proved equal to the model
+                      "is_fuse_candidate", "can_fuse_primitive_ops", "can_fuse_multiple_primitive_ops", "fuse_multiple.fields",
+                      "Plan._find_ops_exceeding_memory", "FinalizedPlan.validate", "admission.wiring"]   # harness/translate.py: re-translated from /repo on every run and proved equal to the model
 RULE = ("K: calculate_projected_mem / peak_projected_mem / fuse_multiple.projected_mem / _find_ops_exceeding_memory on generated "
         "integers and on real finalized plans vs Model.Memory; O: for generated programs the admission boundary is probed at "
         "allowed_mem in {M-1, M, M+1} (M = max projected memory of the plan built under that budget) on the three local executors "
